@@ -149,8 +149,11 @@ def steps_problems(spec, res):
 def call_problems(spec, res):
     """checks on a single call's answer"""
     out = []
-    if res["audit"]:
-        a = res["audit"][0]
+    # hit counters of functools caches are not state the property names (a cache that changes an
+    # answer is caught by the differential runs); everything else that outlives the call is
+    audit = [a for a in res["audit"] if not a["where"].endswith(".cache_info")]
+    if audit:
+        a = audit[0]
         out.append(("global state changed by the call", f"{a['where']}: import-time {a['import_time'][:160]} now {a['now'][:160]}"))
     if res["reused_in_process"]:
         out.append(("invented uuid reused within the process", res["reused_in_process"][0]))
